@@ -83,6 +83,31 @@ def families(tier):
     fams.append(("self-ring", [(s, s) for s in ("C11", "c11", "C1.C1", "C%11%11", "C12.C12", "CC11", "C1C1", "C11C",
                                                  "C=1=1", "[C@]11", "C1(C)1", "F:F", "c:[cn]", "C:C", "[Fe]:[Fe]", "c:F",
                                                  "C1:C:C:C:C:C1", "O:O", "[H]:[H]", "Cl:Cl", "B:B", "[Si]:[Si]")]))
+    # edit-distance-1 neighbourhood of valid SMILES: every printable ASCII character inserted at, or replacing, every
+    # position of a seed, and every single deletion
+    seeds = ["c1ccc[nH]c1", "C[C@@H](N)C(=O)O", "[13CH3+].[O-]", "C/C=C\\C", "C%10CC%10", "c1cc2ccccc2n1", "N#Cc1ccccc1", "C1=CC=1"]
+    chars = [chr(c) for c in range(32, 127)]
+    for seed in seeds:
+        mem = []
+        for i in range(len(seed) + 1):
+            for ch in chars:
+                mem.append(("insert %r at %d" % (ch, i), seed[:i] + ch + seed[i:]))
+                if i < len(seed) and ch != seed[i]:
+                    mem.append(("replace %d by %r" % (i, ch), seed[:i] + ch + seed[i + 1:]))
+            if i < len(seed):
+                mem.append(("delete %d" % i, seed[:i] + seed[i + 1:]))
+        fams.append(("edit1:" + seed, mem))
+    # every element of the periodic table, upper and lower case, in every role an atom can play (the element tables for
+    # aromaticity, valence electrons and organic-subset membership are separate hand-written tables)
+    from mc.oracles.misc import ELEMENTS
+    mem = []
+    for el in sorted(ELEMENTS):
+        lo = el.lower()
+        for t in ("[%s]", "C[%s]C", "[%s]=C", "[%s@](F)(Cl)Br", "[%sH2+]", "C1[%s]C1", "[%s]:c", "c:[%s]:c", "[%s]:[%s]"):
+            mem.append((t.replace("%s", el), t.replace("%s", el)))
+        for t in ("[%s]", "c1ccc[%s]c1", "[%s]c", "[%s]1cccc1", "[%sH]1cccc1", "c1cc[%s-]c1", "c1cc[%s+]cc1", "c1[%s][%s]cc1", "%s1cccc1", "C%sC"):
+            mem.append((t.replace("%s", lo), t.replace("%s", lo)))
+    fams.append(("every-element", mem))
     return fams
 
 
@@ -100,8 +125,9 @@ def plan(tier, seed):
     for fi, (fname, members) in enumerate(families(tier)):
         name = "family/" + fname
         scopes.append({"name": name, "members": len(members), "range": "%s .. %s" % (members[0][0], members[-1][0])})
-        for k in range(0, len(members), 8):
-            tasks.append((name, ("family", fi, k, k + 8, tier)))
+        step = 8 if len(members) < 500 else 200
+        for k in range(0, len(members), step):
+            tasks.append((name, ("family", fi, k, k + step, tier)))
     return {"scopes": scopes, "tasks": tasks, "bounds": {"nesting_max": 1200},
             "weight": lambda t: (2 if t[1][0] == "family" and t[1][1] < 2 else 0)}
 
